@@ -162,6 +162,7 @@ func init() {
 		Rule: "exhaustive small scope of module graphs: 14 shapes over an entry and <= 2 (quick) / 3 (thorough) library modules (single, chain, diamond, fan, unused module, self-import, 2- and 3-cycles through and not through the entry); every module defines same-named private globals x, y and a private function helper plus pub items; every assignment of {pub function, pub global, pub type} imports to the edges, with and without a singleton in an imported module, and every single faulty import kind {private function, private global, missing item, type/value kind confusion, missing module} on every edge; oracle: at least one error-level diagnostic iff the graph has a faulty import or a cycle; fault-free graphs are executed 3 times on both backends and compared with the reference semantics (one environment per module, globals initialised once, each singleton loaded exactly once); every graph is non-trivial; distinct by graph",
 		Jobs: []Job{
 			{Name: "graphs", Run: "^TestTableGraphs$", Shards: [2]int{4, 8}},
+			{Name: "linking", Run: "^TestTableLinking$", Shards: [2]int{1, 1}},
 		}})
 }
 
